@@ -80,6 +80,13 @@ type ExecD struct {
 	// CtxKind 1: the directive gets a user-defined context.Context type
 	// (engine.UserCtx) instead of a standard cancel context.
 	CtxKind int `json:"ctx_kind,omitempty"`
+	// After k>0: this (top-level) execution is only called once execution k-1
+	// has returned: repeated, sequential use of directives in one process.
+	After int `json:"after,omitempty"`
+	// SlowEmit: the scheduler-state emitter holds its caller for a step per report.
+	SlowEmit bool `json:"slow_emit,omitempty"`
+	// SharedErr: all failing user functions return one and the same error value.
+	SharedErr bool `json:"shared_err,omitempty"`
 	// Nest: the body of task id runs another directive (on the worker
 	// goroutine, with a context derived from the one the task received)
 	// before it ends.
@@ -193,6 +200,9 @@ type userErr struct {
 func (e *userErr) Unwrap() error { return e.wraps }
 
 func (e *userErr) Error() string {
+	if e.kind < 0 {
+		return "not found (sentinel shared by every failing function of the execution)"
+	}
 	return fmt.Sprintf("user function failed (exec %d, %s %d/%d)", e.exec, [...]string{"task", "elem", "end"}[e.kind], e.id, e.ord)
 }
 
@@ -255,7 +265,8 @@ type execRun struct {
 
 	inflight, maxInfl int
 	ctxBad            int
-	elemOrd           [64]int   // started element calls per collection
+	elemOrd           [64]int // started element calls per collection
+	sharedErr         *userErr
 	memo              []memoEnt // identity-carrying errors and panic values handed out (no maps: the race detector sees map internals)
 	callerSlot        int
 
@@ -319,6 +330,10 @@ func (x *execRun) errOf(kind, id, ord int) error {
 			return x.memo[i].e
 		}
 	}
+	if x.d.SharedErr {
+		// every failing function of this execution returns the same sentinel value
+		return x.sharedErr
+	}
 	e := &userErr{exec: x.idx, kind: kind, id: id, ord: ord}
 	switch (x.d.PanicKind + id + 2*ord) % 4 {
 	case 1:
@@ -343,7 +358,10 @@ func (x *execRun) panicVal(kind, id, ord int) any {
 		}
 	}
 	var v any
-	switch (x.d.PanicKind + id + ord) % 7 {
+	switch (x.d.PanicKind + id + ord) % 8 {
+	case 7:
+		// the error of another directive, re-thrown: a value that already is a *cff.PanicError
+		v = &cff.PanicError{Value: fmt.Sprintf("inner panic exec=%d kind=%d id=%d ord=%d", x.idx, kind, id, ord), Stacktrace: []byte("inner")}
 	case 5:
 		v = []int{x.idx, kind, id, ord} // a value of an uncomparable type
 	case 6:
@@ -809,8 +827,17 @@ func (e *recPar) ParallelDone(context.Context, time.Duration) {
 
 type recSched recEmitter
 
-//go:norace
 func (e *recSched) EmitScheduler(s cff.SchedulerState) {
+	if e.x.d.SlowEmit && e.k == 0 {
+		// an emitter that takes its time (publishing metrics): the caller of
+		// EmitScheduler is held for one simulator step
+		e.x.r.sim.Yield(engine.HsMisc)
+	}
+	e.note(s)
+}
+
+//go:norace
+func (e *recSched) note(s cff.SchedulerState) {
 	x := e.x
 	if e.k == 0 && x.nstates < len(x.states) {
 		x.states[x.nstates] = s
@@ -839,7 +866,15 @@ func (t *recTask) TaskDone(context.Context, time.Duration) { t.e.rec(EmTaskDone,
 
 // ---- running ----
 
-func (r *runner) caller(i int) { r.runExec(r.execs[i], context.Background()) }
+func (r *runner) caller(i int) {
+	if a := r.execs[i].d.After; a > 0 && a-1 < i {
+		r.sim.Hold(engine.HoldFlag, flagReturned(a-1), 0)
+		if r.sim.Aborted() {
+			return
+		}
+	}
+	r.runExec(r.execs[i], context.Background())
+}
 
 // runExec calls one directive: from a harness goroutine of its own (top
 // level) or from inside a task body of another execution (nested; then the
@@ -959,6 +994,7 @@ func Exec(t *testing.T, d *Desc, replay, keepTrace bool, states map[uint64]struc
 		for k := range x.em {
 			x.em[k] = make([]EmEv, 1024)
 		}
+		x.sharedErr = &userErr{kind: -1, id: -1, ord: -1}
 		if (pr.P.Flow != nil && pr.P.Flow.Emitters > 0) || (pr.P.Par != nil && pr.P.Par.Emitters > 0) {
 			emitters = true
 		}
